@@ -98,17 +98,15 @@ def r1_renderers_refuse(ctx) -> None:
                 else:
                     r.violation("C17.R1", q, short(st, 120), "text form of a Sigma string/regex (prints %name% for an unresolved placeholder) flows into conversion output without a placeholder check", loc)
     # the three value renderers go through convert()/escape()
-    for fn, must in (("sigma.conversion.base.TextQueryBackend.convert_value_str", ".convert("), ("sigma.conversion.base.TextQueryBackend.convert_value_re", ".escape(")):
+    # (call graph: directly or through helpers)
+    for fn, must in (("sigma.conversion.base.TextQueryBackend.convert_value_str", T + ".SigmaString.convert"), ("sigma.conversion.base.TextQueryBackend.convert_value_re", T + ".SigmaRegularExpression.escape"),
+                     (T + ".SigmaString.to_regex", T + ".SigmaString.convert")):
         f = prog.func(fn)
-        if must in unparse(f.node):
-            r.ok("C17.R1", fn, f"renders through {must.strip('.(')}()", f.loc)
+        short_ = must.rsplit(".", 1)[-1]
+        if must in ctx.cg.reachable([fn]):
+            r.ok("C17.R1", fn, f"renders through {short_}()", f.loc)
         else:
-            r.violation("C17.R1", fn, f"def {f.name}", f"value renderer no longer goes through {must.strip('.(')}() (the placeholder-refusing renderer)", f.loc)
-    tr = prog.func(T + ".SigmaString.to_regex")
-    if "self.convert(" in unparse(tr.node):
-        r.ok("C17.R1", tr.qual, "to_regex renders through convert()", tr.loc)
-    else:
-        r.violation("C17.R1", tr.qual, "self.convert(...)", "to_regex bypasses convert() and with it the placeholder check", tr.loc)
+            r.violation("C17.R1", fn, f"def {f.name}" if f.name != "to_regex" else "self.convert(...)", f"value renderer no longer goes through {short_}() (the placeholder-refusing renderer)" if f.name != "to_regex" else "to_regex bypasses convert() and with it the placeholder check", f.loc)
     r.analysed["C17.text_form_sites_in_conversion"] = n_sites
     r.floor("C17.R1", 4)
 
@@ -203,10 +201,8 @@ def r3_hand_back(ctx) -> None:
         pi = c.methods.get("__post_init__")
         if pi is None:
             continue
-        if "self.check_exclusivity()" in unparse(pi.node):
-            r.ok("C17.R3", pi.qual, "check_exclusivity() on construction", pi.loc)
-        elif "super().__post_init__()" in unparse(pi.node) and cq != PH + ".BasePlaceholderTransformation":
-            r.ok("C17.R3", pi.qual, "delegates to super().__post_init__() (which checks exclusivity)", pi.loc)
+        if PH + ".PlaceholderIncludeExcludeMixin.check_exclusivity" in ctx.cg.reachable([pi.qual]):
+            r.ok("C17.R3", pi.qual, "check_exclusivity() on construction (directly or through super().__post_init__())", pi.loc)
         else:
             r.violation("C17.R3", pi.qual, "self.check_exclusivity()", "include and exclude given together are no longer rejected", pi.loc)
     rp = prog.func(T + ".SigmaString.replace_placeholders")
